@@ -138,7 +138,47 @@ func c08History(g *Gen, code string, targets []*big.Int) {
 	}
 }
 
+// c08Suggest: single calls of the exported heuristics Halving and DeltaLargest (`c08s` lines), compared by
+// the driver with the model AND with the functions translated from heuristic.go.
+func c08Suggest(g *Gen) {
+	for i := 0; i < g.pick(3000, 30000); i++ {
+		// an ascending protosequence starting at 1 and a target above its last element (sometimes not)
+		n := 1 + g.R.Intn(6)
+		f := []*big.Int{big.NewInt(1)}
+		for len(f) < n {
+			step := new(big.Int).Add(g.R.Bits(1+g.R.Intn(12)), big.NewInt(1))
+			f = append(f, new(big.Int).Add(f[len(f)-1], step))
+		}
+		var t *big.Int
+		switch g.R.Intn(8) {
+		case 0:
+			t = new(big.Int).Set(f[len(f)-1])
+		case 1:
+			t = new(big.Int).Lsh(f[len(f)-1], uint(1+g.R.Intn(9)))
+		default:
+			t = new(big.Int).Add(f[len(f)-1], g.R.Bits(1+g.R.Intn(40)))
+		}
+		for _, h := range []struct {
+			code string
+			h    heuristic.Heuristic
+		}{{"H", heuristic.Halving{}}, {"D", heuristic.DeltaLargest{}}} {
+			var out []*big.Int
+			res := ""
+			if pn := safe(func() { out = h.h.Suggest(f, t) }); pn != "" {
+				res = "panic"
+			} else if out == nil {
+				res = "nil"
+			} else {
+				res = encInts(out)
+			}
+			g.Line("c08s", h.code, encInts(f), t.String(), res)
+			g.Count("suggest-" + h.code)
+		}
+	}
+}
+
 func genC08(g *Gen) {
+	c08Suggest(g)
 	all := append(append([]string{}, c08Log...), c08Small...)
 	for _, code := range all {
 		for _, ts := range [][]int64{{1}, {5}, {2}, {3, 17}, {1, 5}, {5, 9}, {30, 3, 18}, {7, 3}, {13, 4, 13}, {11}, {23, 11}} {
